@@ -201,6 +201,13 @@ class Closure:
         self.fn, self.env = fn, env
 
 
+class Partial:
+    """functools.partial(<interpreted function>, *args, **kwargs)"""
+
+    def __init__(self, func, args, kw):
+        self.func, self.args, self.kw = func, list(args), dict(kw)
+
+
 class Obj:
     """an abstract instance of a class of the package: its attribute table;
     methods, properties and operators are looked up through the interpreter's
@@ -397,6 +404,22 @@ class Interp:
         raise AnalysisError(f"no operator method for '{ast.unparse(node)}'")
 
     # -- entry points ------------------------------------------------------
+    def apply(self, f, args, kw=None):
+        """call a function value: an interpreted closure / bound method, a
+        partial application of one, or a host callable"""
+        kw = dict(kw or {})
+        if isinstance(f, Partial):
+            return self.apply(f.func, f.args + list(args), dict(f.kw, **kw))
+        if isinstance(f, Closure):
+            return self.call_function(f.fn, list(args),
+                                      dict(f.env, __kwargs__=kw))
+        if isinstance(f, Bound):
+            return self.call_function(f.fn, [f.obj] + list(args),
+                                      dict(f.env, __kwargs__=kw))
+        if callable(f):
+            return f(*args, **kw)
+        raise AnalysisError(f"call of the value {f!r}")
+
     def call_function(self, fn, args, env=None):
         self.depth = getattr(self, "depth", 0) + 1
         try:
@@ -924,6 +947,12 @@ class Interp:
                 raise AnalysisError(f"** of {v!r}")
         if fname in self.calls:
             return self.calls[fname](self, e, args, kw)
+        if fname in ("partial", "functools.partial") and args and isinstance(
+                args[0], (Closure, Bound, Partial)):
+            return Partial(args[0], args[1:], kw)
+        if isinstance(e.func, ast.Name) and isinstance(env.get(e.func.id),
+                                                       Partial):
+            return self.apply(env[e.func.id], args, kw)
         if isinstance(e.func, ast.Name) and isinstance(env.get(e.func.id),
                                                        Closure):
             c = env[e.func.id]
